@@ -92,6 +92,21 @@ func trySend(ch, v reflect.Value) (sent bool) {
 	return ch.TrySend(v)
 }
 
+// Woke is the first statement of every communication clause of a rewritten
+// select. If the clause was reached by blocking, the goroutine has just been
+// woken by the Go runtime and runs concurrently with its waker: it parks, so
+// that from here on the scheduler decides again who runs.
+func Woke(sel *Sel, site string) {
+	if sel.winner >= 0 {
+		return
+	}
+	s := cur.Load()
+	if s == nil || s.free.Load() {
+		return
+	}
+	s.park("wake", site, true)
+}
+
 // MR maps a receive clause's channel.
 func MR[T any](s *Sel, i int, c <-chan T) <-chan T {
 	if s.winner < 0 {
@@ -151,5 +166,9 @@ func ReflectSelect(cases []reflect.SelectCase) (int, reflect.Value, bool) {
 			}
 		}
 	}
-	return reflect.Select(cases)
+	i, v, ok := reflect.Select(cases)
+	if !s.free.Load() {
+		s.park("wake", CallerSite(1), true) // woken by the runtime: see Woke
+	}
+	return i, v, ok
 }
